@@ -7,7 +7,7 @@ import random
 
 import numpy as np
 
-from props import c02, c03
+from props import c02, c03  # noqa: F401
 from worlds import predworld as pw
 
 ID = "C12"
@@ -47,7 +47,8 @@ def gen_plan(rng, index, tier):
         base = c02.gen_plan(rng, 0 if kind == "single" else 1, tier)
     plan = base
     plan["kind"] = kind
-    # more frames: re-draw animals by jittering / dropping from the generated ones
+    mixed = "sizes" in plan and len({tuple(x) for x in plan["sizes"]}) > 1
+    # more frames: re-draw animals by dropping from the generated ones
     frames = plan["frames"]
     n = rng.randint(2, 8)
     out = []
@@ -62,15 +63,46 @@ def gen_plan(rng, index, tier):
                 animals = rng.sample(animals, rng.randint(1, len(animals)))
         elif rng.random() < 0.2:
             animals = [[[float("nan"), float("nan")] for _ in range(plan["n_nodes"])]]
-        out.append({"k": k, "animals": animals})
+        fr = {"k": k, "animals": animals}
+        if mixed:
+            fr["vid"] = src["vid"]
+        out.append(fr)
     plan["frames"] = out
     plan["batch"] = rng.choice([2, 2, 3, 4, 5, 6])
-    plan["provider"] = rng.choice(["labels", "labels", "video"])
+    plan["provider"] = "labels" if mixed else rng.choice(["labels", "labels", "video"])
     if plan["provider"] == "labels":
-        ids = [(v, f) for v in range(2) for f in range(8)]
-        rng.shuffle(ids)
-        for fr, (v, f) in zip(plan["frames"], ids):
-            fr["vid"], fr["fidx"] = v, f
+        fidxs = list(range(10))
+        rng.shuffle(fidxs)
+        for i, fr in enumerate(plan["frames"]):
+            if not mixed:
+                fr["vid"] = rng.randrange(2)
+            fr["fidx"] = fidxs[i]
+    # border scenes: with integral refinement, park one animal per frame within ~2 output cells of the top / bottom border,
+    # all in the same columns - patches that hang over a map border must not pick up the neighbouring sample's or channel's map
+    plan["border"] = False
+    if kind != "single" and plan.get("refinement") == "integral" and rng.random() < 0.5:
+        plan["border"] = True
+        st = "centroid" if kind == "topdown" else "bottomup"
+        S = plan[st]["stride"]
+        x0 = None
+        for k, fr in enumerate(plan["frames"]):
+            if not fr["animals"]:
+                continue
+            fH, fW = pw.frame_hw(plan, fr)
+            e = c02.eff_scale(fH, fW, plan["max_hw"][0], plan["max_hw"][1])[0]
+            cell = S / (plan[st]["scale"] * e)
+            a = np.array(fr["animals"][0], dtype=float)
+            vis = ~np.isnan(a).any(axis=1)
+            anchor = plan.get("anchor")
+            c = a[anchor] if (kind == "topdown" and anchor is not None and vis[anchor]) else (np.nanmin(a, axis=0) + np.nanmax(a, axis=0)) / 2
+            if x0 is None:
+                x0 = min(max(c[0], 6.0), min(pw.frame_hw(plan, g)[1] for g in plan["frames"]) - 7.0)
+            d = rng.uniform(0.6, 2.2) * cell
+            ty = d if k % 2 == 0 else (fH - 1 - d)
+            a = a + np.array([x0 - c[0], ty - c[1]])
+            a[:, 0] = np.clip(a[:, 0], 0.5, fW - 1.5)
+            a[:, 1] = np.clip(a[:, 1], 0.5, fH - 1.5)
+            fr["animals"] = [a.tolist()]
     if kind == "topdown":
         plan["max_instances"] = rng.choice([None, 1, 1, 2, 2])
     plan["perm_seed"] = rng.randrange(1 << 30)
@@ -84,7 +116,8 @@ def gen_plan(rng, index, tier):
 def describe(plan):
     d = {"kind": plan["kind"], "provider": plan["provider"], "batch": plan["batch"], "max_instances": plan.get("max_instances"),
          "refinement": plan["refinement"], "animals_per_frame": [len(f["animals"]) for f in plan["frames"]],
-         "ids": [(f.get("vid", 0), f.get("fidx", i)) for i, f in enumerate(plan["frames"])], "faults": plan["faults"]}
+         "ids": [(f.get("vid", 0), f.get("fidx", i)) for i, f in enumerate(plan["frames"])], "faults": plan["faults"], "border": plan.get("border"),
+         "sizes": plan.get("sizes")}
     for k in ("single", "centroid", "centered", "bottomup", "max_hw"):
         if k in plan:
             d[k] = plan[k]
@@ -178,7 +211,8 @@ def same_instances(a, b, tol=1e-4):
 def execute(plan, choices=None):
     violations = []
     probes = {"frames_compared": 0, "batches_with_mixed_content": 0, "empty_frames_in_batch": 0, "max_instances_binding": 0,
-              "partial_last_batch": 0, "fault_cut_stream": 0, "permuted_run_compared": 0, "two_videos": 0, "degenerate_tie_scene_skipped": 0}
+              "partial_last_batch": 0, "fault_cut_stream": 0, "permuted_run_compared": 0, "two_videos": 0, "degenerate_tie_scene_skipped": 0,
+              "border_scene": int(bool(plan.get("border"))), "mixed_frame_sizes": int("sizes" in plan and len({tuple(x) for x in plan["sizes"]}) > 1)}
 
     def V(kind, where, detail):
         violations.append({"kind": kind, "sig": f"{kind}:{where}", "detail": detail})
